@@ -67,4 +67,8 @@ def get(name):
     m = re.fullmatch(r"fan(\d+)", name)
     if m:
         return T.polygons_at(T.fan_polys(int(m.group(1))))
+    m = re.fullmatch(r"wheel(\d+)", name)
+    if m:
+        # n triangles around a centre, no outer ring: every outer junction is a border junction of two cells
+        return T.polygons_at(T.fan_polys(int(m.group(1)), ring=False))
     raise KeyError(name)
